@@ -23,7 +23,14 @@ Inductive case :=
 | RetryWait (keys : list N) (holders : list peer) (self c2 : peer) (msgs : list wmsg)
             (impl_outs : list wout) (impl_other_error : bool)
 | RetryCoord (keys : list N) (holders : list peer) (t : Z) (excluded : list peer) (self : peer)
-             (evs : list (bool * peer)) (impl_run : option (list peer)) (impl_aborted impl_other_error : bool).
+             (evs : list (bool * peer)) (impl_run : option (list peer)) (impl_aborted impl_other_error : bool)
+(* a wait with time: CoordinatorTimeout [cto] / TssTimeout [tto] in ms, messages with arrival times (ms
+   after the wait began), the relayer watched until [horizon].  [c2] = None: the first attempt (the
+   coordinator is the session's elected one); Some c2: the retried attempt after the scripted bully
+   election was won by c2.  The real relayer is driven TWICE: fed all of [msgs] ([impl_all]) and fed only
+   the coordinator's own messages of [msgs] ([impl_own]) *)
+| Timed (keys : list N) (holders : list peer) (self : peer) (c2 : option peer) (cto tto horizon : N)
+        (msgs : list (N * wmsg)) (impl_all impl_own : list wout * tend) (impl_other_error : bool).
 
 Definition opt_peer_eqb (a b : option peer) : bool :=
   match a, b with
@@ -39,22 +46,6 @@ Fixpoint lists_eqb (a b : list (list peer)) : bool :=
   | _, _ => false
   end.
 
-Definition wout_eqb (a b : wout) : bool :=
-  match a, b with
-  | OReady p, OReady q => N.eqb p q
-  | ORun l, ORun l' => list_peer_eqb l l'
-  | OBadStart, OBadStart => true
-  | OAbort, OAbort => true
-  | _, _ => false
-  end.
-
-Fixpoint wouts_eqb (a b : list wout) : bool :=
-  match a, b with
-  | [], [] => true
-  | x :: a', y :: b' => wout_eqb x y && wouts_eqb a' b'
-  | _, _ => false
-  end.
-
 Definition count_peer (p : peer) (l : list peer) : nat := length (filter (N.eqb p) l).
 Definition perm_b (a b : list peer) : bool :=
   forallb (fun p => Nat.eqb (count_peer p a) (count_peer p b)) (a ++ b).
@@ -66,6 +57,15 @@ Fixpoint sorted_desc_b (keys : list N) (l : list peer) : bool :=
               | [] => true
               | y :: _ => (key_of keys y <=? key_of keys x)%N && sorted_desc_b keys r
               end
+  end.
+
+(* the coordinator a timed case waits for, and the model of its wait *)
+Definition timed_coordinator (key : peer -> N) (holders : list peer) (c2 : option peer) : option peer :=
+  match c2 with Some c => Some c | None => coordinator key holders end.
+Definition timed_model (c : peer) (c2 : option peer) (cto tto horizon : N) (msgs : list (N * wmsg)) : list wout * tend :=
+  match c2 with
+  | None => timed_first c cto tto horizon msgs
+  | Some _ => timed_retry c cto tto horizon msgs
   end.
 
 Definition agree (c : case) : bool :=
@@ -93,6 +93,14 @@ Definition agree (c : case) : bool :=
   | RetryCoord keys holders t excluded self evs run aborted other =>
       let m := retry_coord (key_of keys) holders t excluded self evs in
       opt_list_eqb (fst m) run && Bool.eqb (snd m) aborted && negb other
+  | Timed keys holders self c2 cto tto horizon msgs impl_all impl_own other =>
+      match timed_coordinator (key_of keys) holders c2 with
+      | None => false
+      | Some c =>
+          negb (N.eqb c self) && negb other
+          && tobs_eqb (timed_model c c2 cto tto horizon msgs) impl_all
+          && tobs_eqb (timed_model c c2 cto tto horizon (own_msgs c msgs)) impl_own
+      end
   end.
 
 Definition judge (c : case) : bool :=
@@ -123,6 +131,11 @@ Definition judge (c : case) : bool :=
   | RetryCoord keys holders t excluded self evs run aborted other =>
       if negb (memb self holders) || memb self excluded then true
       else retry_coord_ok holders t excluded self evs run aborted
+  | Timed keys holders self c2 cto tto horizon msgs impl_all impl_own other =>
+      match timed_coordinator (key_of keys) holders c2 with
+      | None => true
+      | Some c => timed_ignored c horizon msgs impl_all impl_own
+      end
   end.
 
 Definition tag (c : case) : N :=
@@ -146,6 +159,15 @@ Definition tag (c : case) : N :=
   | RetryCoord keys holders t excluded self evs _ _ _ =>
       ((match fst (retry_coord (key_of keys) holders t excluded self evs) with Some _ => 41 | None => 40 end)
        + (match ev_fails evs with [] => 0 | _ => 4 end))%N
+  | Timed keys holders self c2 cto tto horizon msgs _ _ _ =>
+      match timed_coordinator (key_of keys) holders c2 with
+      | None => 50
+      | Some c =>
+          ((match snd (timed_model c c2 cto tto horizon msgs) with
+            | TWaiting => 51 | TRunning => 52 | TFinished => 53 | TCoordTimeout => 54 | TWatchTimeout => 55 end)
+           + (match c2 with None => 0 | Some _ => 10 end)
+           + (match own_msgs c msgs with [] => 0 | _ => 20 end))%N
+      end
   end.
 
 Definition check_all := check_cases agree judge tag.
